@@ -453,6 +453,41 @@ impl<'env> Context<'env> {
         self.stack.len()
     }
 
+    /// The closure attachments of all frames, bottom first (verification hook).
+    #[cfg(feature = "verif_hooks")]
+    pub(super) fn verif_frame_closures(&self) -> Vec<(Option<usize>, Option<usize>)> {
+        self.stack
+            .iter()
+            .map(|_frame| {
+                #[cfg(feature = "macros")]
+                {
+                    (_frame.closure, _frame.closure_context)
+                }
+                #[cfg(not(feature = "macros"))]
+                {
+                    (None, None)
+                }
+            })
+            .collect()
+    }
+
+    /// The loop recursion bookkeeping of all frames, bottom first (verification hook).
+    #[cfg(feature = "verif_hooks")]
+    #[allow(clippy::type_complexity)]
+    pub(super) fn verif_frame_loops(
+        &self,
+    ) -> Vec<Option<(Option<(usize, u32)>, Option<(u32, bool)>)>> {
+        self.stack
+            .iter()
+            .map(|frame| {
+                frame
+                    .current_loop
+                    .as_ref()
+                    .map(|l| (l.object.recurse_jump_target, l.current_recursion_jump))
+            })
+            .collect()
+    }
+
     #[cfg(feature = "multi_template")]
     pub(super) fn restore_stack_depth(&mut self, depth: usize) {
         debug_assert!(self.stack.len() >= depth);
